@@ -98,22 +98,28 @@ func c14Run(c *mon.Ctx, csAny any) {
 		c14RunConc(c, cs.Conc)
 		return
 	}
-	v := mon.BigH(cs.S)
-	s := mon.Scal(v)
+	var (
+		v *big.Int
+		s *secp256k1.Scalar
+	)
 
-	if cs.Move != nil {
+	if cs.Move == nil {
+		v = mon.BigH(cs.S)
+		s = mon.Scal(v)
+	} else {
 		c.Count("history-cases")
 		c.Count("via:" + cs.Move.Via)
 
-		s = mon.Scal(mon.BigH(cs.Move.From))
-		_ = s.Bits() // observe the old value, so that anything memoised is filled
-		_ = s.Encode()
+		var (
+			pan bool
+			pv  any
+		)
 
-		if pan, pv := mon.Call(func() { mon.ApplyScalarMove(s, *cs.Move) }); pan {
-			if m, ok := pv.(string); ok && len(m) > 8 && m[:8] == "harness:" {
-				panic(m)
-			}
-
+		s, v, pan, pv = mon.MoveScalar(*cs.Move, func(s *secp256k1.Scalar) {
+			_ = s.Bits() // observe the old value, so that anything memoised is filled
+			_ = s.Encode()
+		})
+		if pan {
 			c.Fail(fmt.Sprintf("mutator %s panicked: %v", cs.Move.Via, pv), "bits-history-panic", nil)
 
 			return
